@@ -107,9 +107,22 @@ static uv_process_t procs[MAXP]; static int ncb, nprocs; static pid_t pids[MAXP]
 static int cbcount[MAXP];
 
 static void on_close(uv_handle_t* h) { (void) h; }
+/* the application's own SIGCHLD watchers (0: used one-shot, 1: normal), sharing the signum with libuv's child_watcher */
+static uv_signal_t usig[2]; static int usig_cbs[2]; static const char* mid_script;
+static void usig_cb(uv_signal_t* h, int signum) { (void) signum; usig_cbs[h - usig]++; }
+static void apply_script(const char* sc) {
+  for (; sc && *sc; sc++) switch (*sc) {
+    case 'o': uv_signal_start_oneshot(&usig[0], usig_cb, SIGCHLD); break;
+    case 'n': uv_signal_start(&usig[1], usig_cb, SIGCHLD); break;
+    case 'O': uv_signal_stop(&usig[0]); break;
+    case 'N': uv_signal_stop(&usig[1]); break;
+    default: break;
+  }
+}
 static void exit_cb(uv_process_t* p, int64_t status, int sig) {
   int id = (int) (p - procs), st = 0; pid_t r = waitpid(pids[id], &st, WNOHANG);
   ncb++; cbcount[id]++;
+  if (ncb == 1 && mid_script) { apply_script(mid_script); mid_script = NULL; }
   fprintf(out, "cb %d %d %d wp=%s active=%d\n", id, (int) status, sig,
           r == -1 && errno == ECHILD ? "ECHILD" : (r == 0 ? "RUNNING" : (r > 0 ? "REAPABLE" : "ERR")), uv_is_active((uv_handle_t*) p));
   uv_close((uv_handle_t*) p, on_close);
@@ -226,6 +239,17 @@ static void do_many(char** w, int nw) {
   fprintf(out, "end\n");
 }
 
+/* chld <pre-script> <mid-script> <presleep_ms> <spec>*: like `many`, with the application's own SIGCHLD watchers
+ * started/stopped before the first spawn (pre) and inside the first exit_cb (mid); script letters: o n O N - */
+static void do_chld(char** w, int nw) {
+  usig_cbs[0] = usig_cbs[1] = 0;
+  apply_script(w[1]);
+  mid_script = w[2];
+  do_many(w + 2, nw - 2);      /* w[2] takes the place of the command word */
+  mid_script = NULL;
+  uv_signal_stop(&usig[0]); uv_signal_stop(&usig[1]);
+}
+
 /* kill <process|pid> <sig> */
 static void do_kill(char** w) {
   uv_process_options_t opt; char* args[4] = { self, "child", "pause", NULL }; int rc, sig = atoi(w[2]), pid;
@@ -303,12 +327,14 @@ int main(int argc, char** argv) {
   setvbuf(out, NULL, _IOLBF, 0);
   uv_replace_allocator(d_malloc, d_realloc, d_calloc, d_free);
   loop = uv_default_loop();
+  for (i = 0; i < 2; i++) { uv_signal_init(loop, &usig[i]); uv_unref((uv_handle_t*) &usig[i]); }
   while (fgets(line, sizeof line, in)) {
     char* w[128]; int nw = 0; char* p;
     for (p = strtok(line, " \n"); p && nw < 128; p = strtok(NULL, " \n")) w[nw++] = p;
     if (!nw) continue;
     if (!strcmp(w[0], "layout") && nw >= 7) do_layout(w, nw);
     else if (!strcmp(w[0], "many") && nw >= 2) do_many(w, nw);
+    else if (!strcmp(w[0], "chld") && nw >= 4) do_chld(w, nw);
     else if (!strcmp(w[0], "kill") && nw == 3) do_kill(w);
     else if (!strcmp(w[0], "echo")) do_echo();
     else if (!strcmp(w[0], "place") && nw == 3) {     /* place <fd> <basefd>: dup a base file to a chosen free number */
